@@ -3,7 +3,8 @@
 
    A move is either a plain field update (ctxs, a flag, a queue) or one of the model's own flow-control
    functions taken whole (cl_add_window, cl_handle_settings, the DATA arm of readStream, one sendLck critical
-   section of sendPending with the DATA run it decides, the HEADERS write of writeRequest, the RST_STREAM the write
+   section of sendPending with the DATA run it decides (MSend), or with the chunk handed back to the connection window
+   because the request was taken back (MSendBack), the HEADERS write of writeRequest, the RST_STREAM the write
    loop writes itself when a body's reader fails, MWlReset). `apply` interprets a
    move on a state, `valid` are the premises the model guarantees where it makes the move, `mvs c ms c'` says
    that c' is c after the moves ms, each valid where it is made. Every function of the model is shown to be
@@ -153,6 +154,16 @@ Definition cs_conn (c : cconn) (pb : cpending) (id : N) : cconn :=
   let c1 := ccu_connWindow c (cl_i32 (cc_connWindow c - cs_n c pb)) in
   ccu_pending c1 (if cs_end c pb then cl_pend_del (cc_pending c1) id else cl_pend_put (cc_pending c1) (cs_pb c pb)).
 
+(* the critical section of a request that has been taken back: the chunk goes back to the connection window
+   (addWindow(0, n)) and deletePending takes what is left of the body off c.pending *)
+Definition send_back (c : cconn) (pb : cpending) (id : N) : cconn :=
+  let c2 := cs_conn c pb id in
+  let c2' := if (0 <? cs_n c pb)%Z then cl_add_window c2 0 (cs_n c pb) else c2 in
+  match cl_pend_get (cc_pending c2') id with
+  | Some _ => ccu_pending c2' (cl_pend_del (cc_pending c2') id)
+  | None => c2'
+  end.
+
 (* the connection's part of the DATA arm of readStream; has_res: somebody is waiting for the response *)
 Definition recv_data (c : cconn) (fr : sframe) (has_res : bool) : cconn :=
   let cur := cl_i32 (cc_currentWindow c - Z.of_N (sf_len fr)) in
@@ -184,6 +195,7 @@ Inductive move : Type :=
 | MPendAddDel (pb : cpending)
 | MRefill (id : N)
 | MSend (id : N) (wr : bool)
+| MSendBack (id : N)
 | MEncSync
 | MEnc (rq : crequest)
 | MNextID
@@ -240,6 +252,13 @@ Definition apply (m : move) (c : cconn) : cconn :=
       if wr then cl_notes c2 (cl_write_data (cc_maxFrame c2) id (cs_chunk c pb) (cs_end c pb)) else c2
     | None => c
     end
+  | MSendBack id =>
+    (* the critical section, then addWindow(0, n): nothing of the chunk goes out; and deletePending takes the body,
+       if it is still there, off c.pending *)
+    match cl_pend_get (cc_pending c) id with
+    | Some pb => send_back c pb id
+    | None => c
+    end
   | MEncSync =>
     if negb (cc_encTableSize c =? cc_encTableSeen c)
     then ccu_enc (ccu_encTableSeen c (cc_encTableSize c)) (enc_set_max (cc_enc c) (cc_encTableSize c))
@@ -269,6 +288,7 @@ Definition valid (m : move) (c : cconn) : Prop :=
   | MSend id wr =>
     exists pb, cl_pend_get (cc_pending c) id = Some pb /\ refill_cond pb = false /\
                (wr = true -> cl_can_write c = true /\ ((cs_n c pb =? 0)%Z && negb (cs_end c pb)) = false)
+  | MSendBack id => exists pb, cl_pend_get (cc_pending c) id = Some pb /\ refill_cond pb = false
   | MWlWrite => cl_can_write c = true /\ cc_outQ c <> []
   | MWlReset _ => cl_can_write c = true
   | MOutQDrop => cl_can_write c = false
@@ -358,10 +378,16 @@ Arguments MOpenDec {hstate}. Arguments MReqClear {hstate}. Arguments MInQPush {h
 Arguments MQClear {hstate}. Arguments MOutQPush {hstate}. Arguments MWlWrite {hstate}. Arguments MWlReset {hstate}. Arguments MOutQDrop {hstate}.
 Arguments MWinCh {hstate}. Arguments MRlPriv {hstate}. Arguments MRecvData {hstate}. Arguments MSettings {hstate}.
 Arguments MAddWindow {hstate}. Arguments MPendDel {hstate}. Arguments MPendAddDel {hstate}. Arguments MRefill {hstate}.
-Arguments MSend {hstate}. Arguments MEncSync {hstate}. Arguments MEnc {hstate}. Arguments MNextID {hstate}. Arguments MHeaders {hstate}.
-Arguments cs_n {hstate}. Arguments cs_chunk {hstate}. Arguments cs_pb {hstate}. Arguments cs_end {hstate}. Arguments cs_conn {hstate}.
+Arguments MSend {hstate}. Arguments MSendBack {hstate}. Arguments MEncSync {hstate}. Arguments MEnc {hstate}. Arguments MNextID {hstate}. Arguments MHeaders {hstate}.
+Arguments cs_n {hstate}. Arguments cs_chunk {hstate}. Arguments cs_pb {hstate}. Arguments cs_end {hstate}. Arguments cs_conn {hstate}. Arguments send_back {hstate}.
 Arguments recv_data {hstate}. Arguments grants_of {hstate}.
 Arguments mvs {hstate}. Arguments D {hstate}. Arguments DD {hstate}. Arguments rdatas_of {hstate}.
+
+(* the eight shapes of send_back c pb id, for the frame lemmas about MSendBack *)
+Ltac sb_cases c pb :=
+  unfold send_back, cl_add_window, cl_signal_window, cs_conn; cbn [N.eqb];
+  destruct (0 <? cs_n c pb)%Z; destruct (cs_end c pb); cc_cbn;
+  match goal with |- context [match cl_pend_get ?l ?i with _ => _ end] => destruct (cl_pend_get l i) end.
 
 (* ---------- which goroutine makes which move ---------- *)
 
@@ -391,7 +417,7 @@ Definition ev_ok {hstate} (e : cevent) (m : move hstate) : Prop :=
   | MRecvData fr _ => e = CEvRL (RFrame fr) /\ sf_kind fr = KData /\ sf_sid fr <> 0
   | MRlPriv _ _ _ _ _ _ _ _ | MGoAway _ | MRlDone | MReqKeep _ | MOpenDec => is_rl e
   | MWlDone | MQClear | MWlWrite | MOutQDrop => is_wl e
-  | MRefill _ | MSend _ _ | MWlReset _ => is_wlf e
+  | MRefill _ | MSend _ _ | MSendBack _ | MWlReset _ => is_wlf e
   | MWinCh => match e with CEvWLWin _ => True | _ => False end
   | MReqAdd _ | MInQPop | MPendAddDel _ | MEncSync | MEnc _ | MNextID | MHeaders _ _ => e = CEvWLIn
   | _ => True
@@ -512,6 +538,20 @@ Proof.
   - apply go_stuck_D.
 Qed.
 
+(* deletePending once the body is off c.pending *)
+Lemma delete_pending_tail who held (c : cconn) id :
+  D anym [] (match cl_pend_get (cc_pending c) id with Some _ => ccu_pending c (cl_pend_del (cc_pending c) id) | None => c end)
+    (fst (cl_delete_pending who held c id)).
+Proof.
+  unfold cl_delete_pending. destruct (cl_pend_get (cc_pending c) id) as [pb|]; [|apply D_refl].
+  destruct (pb_stream pb) eqn:S; [|apply D_refl].
+  destruct (cl_acquire_for held _ (pb_tag pb) id); cbn [fst].
+  - apply close_body_D.
+  - apply D_refl.
+  - apply go_stuck_D.
+  - apply go_stuck_D.
+Qed.
+
 (* ---------- sendPending ---------- *)
 
 Lemma send_pending_S fuel (c : cconn) id :
@@ -540,7 +580,8 @@ Lemma send_pending_S fuel (c : cconn) id :
       else
         match cl_acquire_for [] c2 (pb_tag pb) id with
         | CLRefused =>
-          let '(c3, stuck) := cl_delete_pending 1 [] c2 id in
+          let c2' := if (0 <? cs_n c pb)%Z then cl_add_window c2 0 (cs_n c pb) else c2 in
+          let '(c3, stuck) := cl_delete_pending 1 [] c2' id in
           (c3, if stuck then CSPStuck else CSPOk)
         | CLBlocked | CLSelf => (cl_go_stuck 1 [] c2 false (pb_tag pb), CSPStuck)
         | CLOk =>
@@ -591,9 +632,12 @@ Proof.
            ++ apply (D_any _ _ _ _ (anym_ev_ok e)). apply close_body_D.
            ++ apply IH.
         -- apply (D_step _ _ (MSend id false)); [apply V; discriminate | exact W | split; reflexivity |]. rewrite A. apply D_refl.
-      * apply (D_step _ _ (MSend id false)); [apply V; discriminate | exact W | split; reflexivity |]. rewrite A.
-        destruct (cl_delete_pending 1 [] (cs_conn c pb id) id) as [c3 stuck] eqn:DP. apply delete_pending_D' in DP.
-        apply (D_any _ _ _ _ (anym_ev_ok e)). exact DP.
+      * (* the request has been taken back: the chunk goes back to the connection window *)
+        apply (D_step _ _ (MSendBack id)); [exists pb; auto | exact W | split; reflexivity |].
+        cbn [apply]. rewrite G. unfold send_back. cbv zeta.
+        match goal with |- context [cl_delete_pending 1 [] ?cc id] =>
+          pose proof (delete_pending_tail 1 [] cc id) as DT; destruct (cl_delete_pending 1 [] cc id) as [c3 stuck] end.
+        cbn [fst] in DT. apply (D_any _ _ _ _ (anym_ev_ok e)). exact DT.
       * apply (D_step _ _ (MSend id false)); [apply V; discriminate | exact W | split; reflexivity |]. rewrite A.
         apply (D_any _ _ _ _ (anym_ev_ok e)). apply go_stuck_D.
       * apply (D_step _ _ (MSend id false)); [apply V; discriminate | exact W | split; reflexivity |]. rewrite A.
